@@ -3,12 +3,13 @@
 a weak catch).  For every stored change: apply to /repo, run the check of its (first) property with VERIF_SEED=2,3,..,
 revert.  Prints the (change, seed) pairs that are missed; never touches meta.json or committed evidence.
 
-  python3 tools/seedrobust.py [seed ...]     (default seeds: 2 3)
+  python3 tools/seedrobust.py [name-prefix] [seed ...]     (default seeds: 2 3)
 """
 import json, os, subprocess, sys
 V = os.path.dirname(os.path.dirname(os.path.abspath(__file__)))
 S = os.path.join(V, "seeded")
-seeds = [int(x) for x in sys.argv[1:]] or [2, 3]
+prefix = next((a for a in sys.argv[1:] if not a.isdigit()), "")        # e.g. "F-" to audit only the per-file / per-theme rounds
+seeds = [int(x) for x in sys.argv[1:] if x.isdigit()] or [2, 3]
 
 
 def sh(cmd, env=None):
@@ -24,7 +25,7 @@ missed = []
 try:
     for n in sorted(os.listdir(S)):
         mp = os.path.join(S, n, "meta.json")
-        if not os.path.exists(mp):
+        if not os.path.exists(mp) or not n.startswith(prefix):
             continue
         m = json.load(open(mp))
         prop = m["property"]
@@ -39,7 +40,7 @@ try:
             print(n, "apply failed"); continue
         try:
             for sd in seeds:
-                rc, o = sh([os.path.join(V, "check"), prop, "--tier", "quick"], env=dict(os.environ, VERIF_SEED=str(sd), CARGO_NET_OFFLINE="true"))
+                rc, o = sh([os.path.join(V, "check"), prop, "--tier", "quick"], env=dict(os.environ, VERIF_SEED=str(sd), CARGO_NET_OFFLINE="true", VERIF_NO_CORPUS="1"))
                 vio = [l for l in o.splitlines() if l.startswith("VIOLATION")]
                 ok = rc != 0 and bool(vio)
                 inp = ok and not vio[0].endswith("no-failing-input-found")
